@@ -305,7 +305,7 @@ func PSyncContinue(c *core.Ctx, rule string) {
 	}
 	info := fn.Pkg.TypesInfo
 	g := cfgq.Of(c.Program, fn)
-	fl := NewFlow(g)
+	fl := NewFlow(g).Inlining(c.Program, info, fn.Decl, fn.Pkg.PkgPath)
 	var params []*ast.Ident
 	for _, f := range fn.Decl.Type.Params.List {
 		params = append(params, f.Names...)
@@ -325,7 +325,7 @@ func PSyncContinue(c *core.Ctx, rule string) {
 		return
 	}
 	inRun, inOff := info.Defs[params[2]], info.Defs[params[3]]
-	c.Check(rule, "SendPSyncContinue/runid", cmd.Pos(), IsObj(info, inRun)(cmd.Args[1]),
+	c.Check(rule, "SendPSyncContinue/runid", cmd.Pos(), SameVar(info, fn.Decl, inRun)(cmd.Args[1]),
 		"PSYNC must name the run id the caller passed in: with another id the source answers FULLRESYNC (or continues a foreign history)")
 	offID, ok := ast.Unparen(cmd.Args[2]).(*ast.Ident)
 	if !ok {
@@ -334,37 +334,56 @@ func PSyncContinue(c *core.Ctx, rule string) {
 	}
 	off := core.ObjOf(info, offID)
 	isOff := IsObj(info, off)
+	// the sent variable, the parameter, or a single-definition copy of the parameter
+	alias := func(e ast.Expr) bool { return isOff(e) || SameVar(info, fn.Decl, inOff)(e) }
 	minus1 := func(e ast.Expr) bool { v, ok := core.IntConst(info, e); return ok && v == -1 }
-	// definitions of the sent variable: the parameter, and +1 steps
-	var incs []ast.Node
-	okDefs := off == inOff
+	// direct definitions of the sent variable, classified by the value they give it:
+	//   id     the caller's offset (the parameter or a copy of it)
+	//   inc    that offset + 1 (or the variable's own value + 1: self)
+	//   reset  the constant -1
+	type def struct {
+		stmt ast.Node
+		kind string
+		self bool
+	}
+	var defs []def
 	helperDef := false
-	for _, o := range Origins(info, fn.Decl, offID) {
+	for _, o := range Origins1(info, fn.Decl, offID) {
 		switch {
-		case o.Zero:
+		case o.Zero || o.Param:
 		case o.Op == token.INC:
-			incs = append(incs, o.Stmt)
+			defs = append(defs, def{o.Stmt, "inc", true})
 		case o.Op == token.ADD_ASSIGN:
 			if v, ok := core.IntConst(info, o.Expr); ok && v == 1 {
-				incs = append(incs, o.Stmt)
+				defs = append(defs, def{o.Stmt, "inc", true})
 			} else {
 				c.Failf(rule, "SendPSyncContinue/offset+1", o.Stmt.Pos(), "`%s`: the PSYNC offset must be the last received offset plus exactly 1", c.Src(o.Stmt))
 				return
 			}
-		case o.Op != 0 || o.Range || o.Res > 0:
+		case o.Op != 0 || o.Range || o.Res >= 0 || o.Expr == nil:
 			c.Undecidedf(rule, "SendPSyncContinue/offset+1", fn.Decl.Pos(), "unexpected definition `%s` of the PSYNC offset", c.Src(o.Stmt))
 			return
-		case IsObj(info, inOff)(o.Expr):
-			okDefs = true
+		case SameVar(info, fn.Decl, inOff)(o.Expr):
+			defs = append(defs, def{o.Stmt, "id", false})
+		case minus1(o.Expr):
+			defs = append(defs, def{o.Stmt, "reset", false})
 		default:
-			if be, ok := ast.Unparen(o.Expr).(*ast.BinaryExpr); ok && be.Op == token.ADD && o.Stmt != nil {
-				if v, ok := core.IntConst(info, be.Y); ok && v == 1 && isOff(be.X) {
-					incs = append(incs, o.Stmt)
-					continue
+			if be, ok := ast.Unparen(o.Expr).(*ast.BinaryExpr); ok && be.Op == token.ADD {
+				x, y := be.X, be.Y
+				if _, isC := core.IntConst(info, x); isC {
+					x, y = y, x
+				}
+				if v, ok := core.IntConst(info, y); ok && alias(stripConvs(info, x)) {
+					if v == 1 {
+						defs = append(defs, def{o.Stmt, "inc", isOff(stripConvs(info, x))})
+						continue
+					}
+					c.Failf(rule, "SendPSyncContinue/offset+1", o.Stmt.Pos(), "`%s`: the PSYNC offset must be the last received offset plus exactly 1", c.Src(o.Stmt))
+					return
 				}
 			}
 			// `offset = helper(inOffset)`: the helper computes "offset+1 unless -1"
-			if hc, isCall := ast.Unparen(o.Expr).(*ast.CallExpr); isCall && len(hc.Args) == 1 && IsObj(info, inOff)(hc.Args[0]) {
+			if hc, isCall := ast.Unparen(o.Expr).(*ast.CallExpr); isCall && len(hc.Args) == 1 && SameVar(info, fn.Decl, inOff)(hc.Args[0]) {
 				if h := HelperOf(c.Program, info, fn.Decl, hc, fn.Pkg.PkgPath); h != nil {
 					if psyncHelper(c, rule, h, cmd) {
 						helperDef = true
@@ -377,45 +396,124 @@ func PSyncContinue(c *core.Ctx, rule string) {
 			return
 		}
 	}
-	if helperDef && len(incs) == 0 {
-		// the helper form was judged as a whole; the sent variable has no other definition
-		okDefs = true
-	} else if helperDef {
-		c.Undecidedf(rule, "SendPSyncContinue/offset+1", cmd.Pos(), "the PSYNC offset is computed by a helper and incremented again")
-		return
-	}
-	if !okDefs {
-		c.Failf(rule, "SendPSyncContinue/offset+1", cmd.Pos(), "the offset sent with PSYNC does not derive from the caller's offset parameter")
-		return
-	}
 	if helperDef {
+		if len(defs) > 0 {
+			c.Undecidedf(rule, "SendPSyncContinue/offset+1", cmd.Pos(), "the PSYNC offset is computed by a helper and defined again elsewhere")
+			return
+		}
 		continueReturn(c, rule, fn, g, info, isOff, off, inOff)
 		return
 	}
-	isInc := func(n ast.Node) bool {
-		for _, i := range incs {
-			if n == i {
+	hasID := off == inOff
+	for _, d := range defs {
+		hasID = hasID || d.kind == "id" || d.kind == "inc" && !d.self
+	}
+	if !hasID {
+		c.Failf(rule, "SendPSyncContinue/offset+1", cmd.Pos(), "the offset sent with PSYNC does not derive from the caller's offset parameter")
+		return
+	}
+	isDef := func(n ast.Node) bool {
+		for _, d := range defs {
+			if n == d.stmt {
 				return true
 			}
 		}
 		return false
 	}
-	isM1 := func(ft cfgq.Fact) bool { eq, ok := EqFact(ft, isOff, minus1); return ok && eq }
-	notM1 := func(ft cfgq.Fact) bool { eq, ok := EqFact(ft, isOff, minus1); return ok && !eq }
+	isM1 := func(ft cfgq.Fact) bool { eq, ok := EqFact(ft, alias, minus1); return ok && eq }
+	notM1 := func(ft cfgq.Fact) bool { eq, ok := EqFact(ft, alias, minus1); return ok && !eq }
 	cp, _ := g.Find(cmd)
 	cn := cp.Node()
 	toCmd := func(n ast.Node) bool { return n == cn }
-	w := g.Path(cfgq.Query{From: g.Entry(), Avoid: isInc, AvoidEdge: fl.Edge(isM1), Target: toCmd})
+	// lastDef(d, assume): d can be the definition that reaches the PSYNC command on a path on which
+	// no branch contradicts the assumption (edges establishing the opposite fact are not taken)
+	lastDef := func(d *def, contra func(cfgq.Fact) bool) []string {
+		avoid := fl.Edge(contra)
+		if d == nil { // the parameter's own value at entry
+			return g.Path(cfgq.Query{From: g.Entry(), Avoid: isDef, AvoidEdge: avoid, Target: toCmd})
+		}
+		dp, ok := g.Find(d.stmt)
+		if !ok {
+			return nil
+		}
+		dn := dp.Node()
+		w1 := g.Path(cfgq.Query{From: g.Entry(), AvoidEdge: avoid, Target: func(n ast.Node) bool { return n == dn }})
+		if w1 == nil {
+			return nil
+		}
+		w2 := g.Path(cfgq.Query{From: dp, After: true, Avoid: isDef, AvoidEdge: avoid, Target: toCmd})
+		if w2 == nil {
+			return nil
+		}
+		return append(w1, w2...)
+	}
+	// with an offset other than -1 the command must carry offset+1
+	var w []string
+	if off == inOff {
+		w = lastDef(nil, isM1)
+	}
+	for i := range defs {
+		if d := &defs[i]; d.kind != "inc" && w == nil {
+			w = lastDef(d, isM1)
+		}
+	}
 	c.Check(rule, "SendPSyncContinue/offset+1", cmd.Pos(), w == nil,
 		"unless the offset is -1, PSYNC must ask for offset+1 (the first byte not yet received): asking for `offset` itself makes the source resend the last byte, which the parser then sees twice / mid-command", w...)
-	for i, inc := range incs {
-		ip, _ := g.Find(inc)
-		in := ip.Node()
-		w1 := g.Path(cfgq.Query{From: g.Entry(), AvoidEdge: fl.Edge(notM1), Target: func(n ast.Node) bool { return n == in }})
-		c.Check(rule, fmt.Sprintf("SendPSyncContinue/keep-minus-one#%d", i+1), inc.Pos(), w1 == nil,
+	k := 0
+	for i := range defs {
+		d := &defs[i]
+		if d.kind != "inc" {
+			continue
+		}
+		k++
+		// with offset -1 the command must carry -1
+		w1 := lastDef(d, notM1)
+		c.Check(rule, fmt.Sprintf("SendPSyncContinue/keep-minus-one#%d", k), d.stmt.Pos(), w1 == nil,
 			"the +1 must be skipped for offset -1 (PSYNC ? -1 asks for a full resync; 0 would be a real offset)", w1...)
-		w2 := g.Path(cfgq.Query{From: ip, After: true, Target: isInc})
-		c.Check(rule, fmt.Sprintf("SendPSyncContinue/once#%d", i+1), inc.Pos(), w2 == nil, "the offset is incremented at most once: +2 skips a byte of the stream", w2...)
+		var w2 []string
+		if d.self {
+			// a self-increment executed twice (or after another +1) skips a byte
+			dp, _ := g.Find(d.stmt)
+			w2 = g.Path(cfgq.Query{From: dp, After: true, Avoid: func(n ast.Node) bool {
+				for _, e := range defs {
+					if n == e.stmt && e.kind != "inc" {
+						return true
+					}
+				}
+				return false
+			}, Target: func(n ast.Node) bool {
+				for _, e := range defs {
+					if n == e.stmt && e.kind == "inc" && e.self {
+						return true
+					}
+				}
+				return false
+			}})
+			if w2 == nil {
+				// and it is applied to the caller's offset, not to an already incremented value
+				for _, e := range defs {
+					if e.kind == "inc" && e.stmt != d.stmt {
+						ep, _ := g.Find(e.stmt)
+						dn, _ := g.Find(d.stmt)
+						tn := dn.Node()
+						if p := g.Path(cfgq.Query{From: ep, After: true, Avoid: func(n ast.Node) bool {
+							for _, f := range defs {
+								if n == f.stmt && f.kind != "inc" {
+									return true
+								}
+							}
+							return false
+						}, Target: func(n ast.Node) bool { return n == tn }}); p != nil {
+							w2 = p
+						}
+					}
+				}
+			}
+		}
+		c.Check(rule, fmt.Sprintf("SendPSyncContinue/once#%d", k), d.stmt.Pos(), w2 == nil, "the offset is incremented at most once: +2 skips a byte of the stream", w2...)
+	}
+	if k == 0 {
+		c.Failf(rule, "SendPSyncContinue/keep-minus-one", cmd.Pos(), "the PSYNC offset is never the received offset plus 1")
 	}
 	continueReturn(c, rule, fn, g, info, isOff, off, inOff)
 }
@@ -584,6 +682,11 @@ func PSyncCalls(c *core.Ctx, rule string, only string) int {
 			continue
 		}
 		arg := cs.Call.Args[3]
+		if _, isID := ast.Unparen(arg).(*ast.Ident); isID {
+			if o, ok := SoleOrigin(info, cs.In.Decl, arg); ok && o.Expr != nil && o.Op == 0 && !o.Range && o.Res <= 0 {
+				arg = o.Expr
+			}
+		}
 		switch {
 		case IsSourceOffset(info, arg):
 			c.Okf(rule, key, cs.Call.Pos(), "PSYNC is issued with ds.sourceOffset (the callee adds 1)")
@@ -598,6 +701,14 @@ func PSyncCalls(c *core.Ctx, rule string, only string) int {
 		}
 		// run id: a parameter of the calling function
 		rid, _ := ast.Unparen(cs.Call.Args[2]).(*ast.Ident)
+		if rid != nil {
+			// through single-definition copies (`runId := <parameter>`)
+			if o, ok := SoleOrigin(info, cs.In.Decl, rid); ok && o.Expr != nil && o.Op == 0 && !o.Range && o.Res <= 0 {
+				if id2, ok := ast.Unparen(o.Expr).(*ast.Ident); ok {
+					rid = id2
+				}
+			}
+		}
 		isParam := false
 		if rid != nil && cs.In.Lit == nil {
 			for _, f := range cs.In.Decl.Type.Params.List {
